@@ -138,3 +138,11 @@ def c13(F, R, tier):
 def c19(F, R, tier):
     import c19 as mod
     mod.check(F, R)
+
+
+@prop("C20",
+      technique="static: purity (no arithmetic) of every hop of the dual-value path, positional pairing of (name, constraint reference) inside one loop iteration, filter shape, on typed HIR",
+      explanation="THIN CLAIM: decides only that the bridge is a pure forwarder. (PURE-FORWARD) collect_good_lp_duals, LpSolution::with_shadow_prices/shadow_prices, DualValues::shadow_price, BuilderSolution::shadow_price and the Clarabel extraction closure perform no arithmetic on the dual and pass it on unmodified; (PAIRING) the stored value is dual.dual(reference) of the reference paired with that name in the same tuple, the pair is built from add_constraint(row) and row.name() in the same loop iteration, rows with an empty name are filtered by is_empty and nothing else is filtered or reordered. NOT decided: that the dual value reported by good_lp/Clarabel equals the sensitivity of the optimum, its sign convention for min/max and <=/>= rows, zero for inactive rows -- all numeric facts of the dependencies.")
+def c20(F, R, tier):
+    import c20 as mod
+    mod.check(F, R)
